@@ -199,7 +199,17 @@ def gen_img(r):
                     "pal": rbytes(r, 768) if pal else None})
     pre = r.choice([0, 0, 1, 2])
     edits = sorted(r.sample(range(n), r.randrange(1, n + 1))) if (w == "gr" and r.random() < 0.6) else []
-    return {"kind": "img", "w": w, "pre": pre, "edits": edits, "pad": gen_pad(r) & 15, "ril": r.choice([-1, 0, 1, 2]), "objs": ims}
+    lazy = 0
+    if w == "df" and r.random() < 0.6:
+        # the palette / interlace set for one image stays in effect: consecutive images often share it and the writer
+        # then makes no call for it
+        lazy = 1 << 14
+        for a, b in zip(ims, ims[1:]):
+            if r.random() < 0.5 and a["nc"] == 1 and b["nc"] == 1:
+                b["pal"] = a["pal"]
+            if r.random() < 0.5 and a["nc"] == 3 and b["nc"] == 3:
+                b["il"] = a["il"]
+    return {"kind": "img", "w": w, "pre": pre, "edits": edits, "pad": (gen_pad(r) & 15) | lazy, "ril": r.choice([-1, 0, 1, 2]), "objs": ims}
 
 
 def gen_rawsds(r):
@@ -238,6 +248,60 @@ def gen_rawimg(r):
                     "data": rbytes(r, x * y * nc),
                     "pal": rbytes(r, 768) if (nc == 1 and (sticky or r.random() < 0.5)) else None})
     return {"kind": "rawimg", "form": form, "ril": r.choice([-1, 0]), "objs": ims}
+
+
+def gen_dfsdseq(r):
+    """a session of the single-file SDS writer: settings stay in effect between datasets unless a call changes them;
+    no reset is issued that the sequence does not contain"""
+    ops = []
+    dims, nt = None, None
+
+    def setdims():
+        nonlocal dims
+        rank = r.choice([1, 2, 2, 3])
+        dims = [r.choice([1, 2, 3, 4]) for _ in range(rank)]
+        ops.append(["D", str(rank)] + [str(x) for x in dims])
+
+    def setnt():
+        nonlocal nt
+        nt = r.choice(list(BASES)) | r.choice([0, 0, 0, 0x4000])
+        ops.append(["N", str(nt)])
+    setdims()
+    setnt()
+    hs = lambda b: hexs(b) if b else "_"
+    nadd = 0
+    want = r.choice([2, 3, 3, 4, 5])
+    while nadd < want and len(ops) < 60:
+        a = r.random()
+        wd = BASES[nt & 255]
+        if a < 0.30:
+            d = r.randrange(len(dims))
+            # set a scale, or remove it again (NULL)
+            ops.append(["S", str(d), hexs(rbytes(r, dims[d] * wd)) if r.random() < 0.6 else "-"])
+        elif a < 0.40:
+            ops.append(["T", hs(rstr(r)), hs(rstr(r) if r.random() < 0.7 else []), hs(rstr(r) if r.random() < 0.7 else [])])
+        elif a < 0.50:
+            ops.append(["X", str(r.randrange(len(dims))), hs(rstr(r)), hs(rstr(r) if r.random() < 0.7 else []), hs([])])
+        elif a < 0.56:
+            ops.append(["R", hexs(rbytes(r, wd)), hexs(rbytes(r, wd))])
+        elif a < 0.62:
+            if r.random() < 0.5:
+                ops.append(["D", str(len(dims))] + [str(x) for x in dims])     # the same dimensions again: nothing changes
+            else:
+                setdims()
+        elif a < 0.66:
+            setnt()
+        elif a < 0.69:
+            ops.append(["C"])
+            setdims()
+            setnt()
+        else:
+            ne = 1
+            for x in dims:
+                ne *= x
+            ops.append(["A", hexs(rbytes(r, ne * wd))])
+            nadd += 1
+    return {"kind": "dfsdseq", "w": "dfsd", "ops": ops}
 
 
 def gen_pal(r):
@@ -325,6 +389,8 @@ def emit(cid, c):
         return " ".join(t)
     if k == "legacy":
         return "%s legacy %s" % (cid, c["path"])
+    if k == "dfsdseq":
+        return "%s dfsdseq %d %s" % (cid, len(c["ops"]), " ".join(" ".join(o) for o in c["ops"]))
     if k == "rawsds":
         t = ["%s rawsds %s %d" % (cid, c["form"], len(c["objs"]))]
         for d in c["objs"]:
@@ -399,6 +465,18 @@ def parse_case(line):
         return cid, {"kind": "ann", "w": w, "objs": objs}
     if k == "legacy":
         return cid, {"kind": "legacy", "path": nx()}
+    if k == "dfsdseq":
+        n = int(nx())
+        ops = []
+        arity = {"N": 1, "S": 2, "T": 3, "X": 4, "R": 2, "A": 1, "C": 0}
+        for _ in range(n):
+            o = nx()
+            if o == "D":
+                rk = nx()
+                ops.append(["D", rk] + [nx() for _ in range(int(rk))])
+            else:
+                ops.append([o] + [nx() for _ in range(arity[o])])
+        return cid, {"kind": "dfsdseq", "w": "dfsd", "ops": ops}
     if k == "rawsds":
         form = nx()
         n = int(nx())
@@ -467,7 +545,7 @@ def run_cases(ctx, cases, tag):
     with open(p2, "w") as fh:
         for cid, c in cases:
             recs = [t for t in (l.split() for l in Rd.get(cid, []) if l.startswith("rec ")) if len(t) == 6 and t[4].lstrip("-").isdigit()]
-            if recs and c["kind"] in ("sds", "img", "legacy", "pal"):
+            if recs and c["kind"] in ("sds", "img", "legacy", "pal", "dfsdseq"):
                 fh.write("%s recs %d %s\n" % (cid, len(recs), " ".join("%s %s %s %s" % ((t[1], t[2], t[4], t[5]) if re.fullmatch(r"[0-9a-f]+|-", t[5]) else (t[1], t[2], "1", "-"))
                                                                      for t in recs)))
     rcm, M = vc.run_lines(mod, p2, timeout=900)
@@ -491,6 +569,11 @@ def compare(c, R, S):
     crash = [l for l in R if l.startswith("crash")]
     if crash:
         return ["library crashed: " + crash[0]], 0
+    if c["kind"] == "img" and (c.get("pad", 0) >> 14) & 1:
+        # a palette that stays in effect for several images is stored once: DFPnpals counts it once while DFPgetpal
+        # meets it once per image; the palette calls are compared only when every image got its own palette
+        r = [l for l in r if not l.startswith("dfp ")]
+        s = [l for l in s if not l.startswith("dfp ")]
     named = set(" ".join(l.split()[:4]) for l in s if l.startswith("sdmeta ") and l.split()[2] == "dname")
     r = [l for l in r if not (l.startswith("sdmeta ") and l.split()[2] == "dname" and " ".join(l.split()[:4]) not in named)]
     if c["kind"] == "sds" and len(set(o["dims"][0] for o in c["objs"] if o["unl"])) > 1:
@@ -609,6 +692,13 @@ def compare_legacy(R):
 # --------------------------------------------------------------------------------------------
 def shrinks(c):
     """smaller variants of a case"""
+    if c["kind"] == "dfsdseq":
+        for i, o in enumerate(c["ops"]):
+            if o[0] in ("S", "T", "X", "R", "A") and not (o[0] == "A" and sum(1 for x in c["ops"] if x[0] == "A") <= 1):
+                d = dict(c)
+                d["ops"] = c["ops"][:i] + c["ops"][i + 1:]
+                yield d
+        return
     if c["kind"] not in ("sds", "img", "pal", "ann", "rawsds", "rawimg"):
         return
     objs = c["objs"]
@@ -690,21 +780,22 @@ def shrink(ctx, c, limit=25):
 # --------------------------------------------------------------------------------------------
 # known findings: signatures computed from the failing case itself
 # --------------------------------------------------------------------------------------------
-def signature(c, bad):
+def signature(c, bad, S=None):
     """'gr-reads-nonpixel-interlaced-rig': every disagreement is the GR view of a 24-bit image that DF24 stored with
     line or component interlace (GRreadimage takes the stored bytes for pixel-interlaced data)"""
-    if c["kind"] in ("sds", "rawsds") and c.get("w", "dfsd") == "dfsd":
+    if c["kind"] in ("sds", "rawsds", "dfsdseq") and c.get("w", "dfsd") == "dfsd":
         # 'sd-drops-strings-of-unscaled-old-dimension': every disagreement is the SD view of the label/unit/format of a
-        # dimension of an old-style (DFSD-written) dataset that has strings but no scale
+        # dimension of an old-style (DFSD-written) dataset that has strings but no scale (decided on what the
+        # specification expects for that dimension)
+        exp = set(S or [])
         ok = bool(bad)
         for b in bad:
-            m = re.match(r"^(expected|library)\s+sdmeta (\d+) dstrs (\d+) ", b)
+            m = re.match(r"^(expected|library)\s+sdmeta (\d+) dstrs (\d+) (.*)$", b)
             if not m:
                 ok = False
                 break
-            k_, i_ = int(m.group(2)), int(m.group(3))
-            o = c["objs"][k_] if k_ < len(c["objs"]) else None
-            if not (o and i_ < len(o["dims"]) and o["dstrs"][i_] and not o["scales"][i_]):
+            if "sdmeta %s scale %s none" % (m.group(2), m.group(3)) not in exp or \
+                    ("sdmeta %s dstrs %s - - -" % (m.group(2), m.group(3))) in exp:
                 ok = False
                 break
         if ok:
@@ -726,7 +817,7 @@ def report(ctx, cid, c, R, S, bad, M=None):
            "# run: bin/check C15 --replay <this file>", emit(cid, c)]
     txt += ["# " + b for b in bad[:12]]
     ctx.violation("interfaces disagree on a %s case (%s): %s" % (c["kind"], c.get("w", ""), bad[0][:160]), "\n".join(txt),
-                  found=True, signature=signature(c, bad))
+                  found=True, signature=signature(c, bad, S))
 
 
 def run(ctx):
@@ -748,6 +839,8 @@ def run(ctx):
         cases.append(("p%d" % i, gen_pal(r)))
     for i in range(40 * nq):
         cases.append(("a%d" % i, gen_ann(r)))
+    for i in range(40 * nq):
+        cases.append(("q%d" % i, gen_dfsdseq(r)))
     for i in range(25 * nq):
         cases.append(("rs%d" % i, gen_rawsds(r)))
     for i in range(25 * nq):
@@ -817,7 +910,7 @@ def run(ctx):
         ctx.case(emit("", c), nv >= 2, sample={"case": emit(cid, c)[:160], "library": observed(R)[:4]}
                  if len(ctx.coverage["samples"]) < 4 and nv >= 2 else None)
         if bad and nviol < 3:
-            sig = signature(c, bad)
+            sig = signature(c, bad, S)
             if sig is not None and ctx.match_known(sig) is not None:
                 ctx.violation("known finding", "", found=True, signature=sig)
                 continue
@@ -883,6 +976,8 @@ def model_disagreements(c, R, M):
                 return False
             b.remove(hit)
         return True
+    if k == "dfsdseq":
+        k = "sds"
     if k in ("sds", "legacy"):
         rd, md = sds_keys("dfsd", R, False), sds_keys("dfsdm", M, True)
         if k == "legacy":
@@ -936,7 +1031,7 @@ def run_models(ctx, cases, Rd, Md):
     n, nbad, nrec = 0, 0, 0
     for cid, c in cases:
         M = Md.get(cid)
-        if M is None or c["kind"] not in ("sds", "img", "legacy"):
+        if M is None or c["kind"] not in ("sds", "img", "legacy", "dfsdseq"):
             continue
         n += 1
         nrec += sum(1 for l in M if l.startswith("wm "))
@@ -971,7 +1066,7 @@ def replay(ctx, path):
                 print("%s %s" % (mark, x[:200]))
         for x in Md.get(cid, []):
             print("  M: " + x[:200])
-        if c["kind"] in ("sds", "img", "legacy") and cid in Md:
+        if c["kind"] in ("sds", "img", "legacy", "dfsdseq") and cid in Md:
             for b in model_disagreements(c, R, Md[cid]):
                 print("R/M DISAGREES: " + b[:300])
                 rcode = 1
